@@ -163,6 +163,21 @@ def gen_cases(tier, seed):
         cases.append({'seed': rng.randrange(1 << 30), 'min_part': C, 'transfers': [t], 'body_read_sizes': [65536] if C > 8 else [3],
                       'config': dict(multipart_threshold=C, multipart_chunksize=C, max_request_concurrency=rng.choice([2, 3, 4])),
                       'plan': {'gate': {'match': '/cb:on_progress', 'phase': 'before', 'policy': 'seeded', 'count': rng.choice([1, 2, 3])}}})
+    # several transfers one after the other on ONE manager (each finished before the next is submitted)
+    for i in range(30 if quick else 300):
+        C = 8
+        T = rng.choice([8, 16])
+        ts = []
+        for j in range(rng.choice([3, 4])):
+            kind = rng.choice(['upload', 'download', 'copy'])
+            t = {'kind': kind, 'size': rng.choice([0, 1, T - 1, T, 2 * C + 1, 4 * C, 5 * C + 3])}
+            if kind == 'upload':
+                t['src'] = rng.choice(['path', 'seekable', 'nonseekable'])
+            elif kind == 'download':
+                t['dst'] = rng.choice(['path', 'seekable', 'nonseekable'])
+            ts.append(t)
+        cases.append({'seed': rng.randrange(1 << 30), 'min_part': C, 'sequential': True, 'transfers': ts, 'body_read_sizes': rng.choice([[8192], [3]]),
+                      'config': dict(multipart_threshold=T, multipart_chunksize=C, io_chunksize=4, max_request_concurrency=rng.choice([1, 2, 3]))})
     # executor / subscriber flavours: everything inline in the submitting thread (NonThreadedExecutor, what use_threads=False
     # selects), no subscribers at all, and duck-typed subscribers offering only some callbacks
     for s in cases:
